@@ -1,5 +1,6 @@
 """C05 - concurrent readers see commits atomically, in order, never going back in time.
 Decided: the lock / hand-over discipline every schedule relies on (not linearizability itself)."""
+import re
 import core, lib
 from core import call_matches, op_place, op_local, backward_slice
 from props import shared
@@ -14,7 +15,36 @@ ASSUMPTIONS = ['linearizability proper and memory ordering of Relaxed atomics ar
 TRUSTED = ['rustc MIR construction (nightly)', 'pdb-facts driver', 'rule engine /verif/rules', 'anchor tables in props/shared.py, props/C05.py']
 
 
+def key_tail_whole(ctx, p):
+    """TableKey::compare compares the WHOLE stored key tail with the whole partial key: the index keeps only ~50 bits of the key
+    (and the vector search matches 32 of them), so every byte of the tail that the index does not pin down is verified here."""
+    F = ctx.F
+    cb = ctx.body('table::key::TableKey::compare')
+    if not cb:
+        return
+    eqs = [bi for bi, t in cb.calls() if bi in cb.normal_blocks() and call_matches(t, ['re:PartialEq<.*>>::(eq|ne)$', 'std::cmp::PartialEq::eq', 'std::cmp::PartialEq::ne', 're:PartialEq>::(eq|ne)$'])]
+    ctx.ob(p + 'w0 compare-anchor', 'anchor', cb.path, 'TableKey::compare contains the equality test of the key tail', len(eqs) >= 1, str(eqs))
+    for s2 in eqs:
+        bad = []
+        pk = False
+        for a in cb.term(s2)['a'][:2]:
+            if op_place(a) is None:
+                continue
+            sl = backward_slice(cb, [op_place(a)])
+            bad += [c for c in sl.calls if re.search(r'ops::Index(Mut)?<.*>::index(_mut)?$', c) or c in ('std::ops::Index::index', 'std::ops::IndexMut::index_mut') or re.search(r'::(split_at|split_first|split_last|get|first_chunk|last_chunk|chunks|windows|iter|skip|take)$', c)]
+            pk = pk or any(c.endswith('key::partial_key') for c in sl.calls)
+        ctx.ob(p + 'w whole-key-tail-compared', 'K8-const', cb.path,
+               'the equality in TableKey::compare is applied to the complete partial key and the complete fetched tail (no sub-slicing: bytes the index lookup does not fully determine must be checked here)',
+               not bad and pk, 'operands are narrowed by %s' % sorted(set(bad))[:3] if bad else ('' if pk else 'partial_key() is not an operand'), cb.loc(s2))
+    pkb = F.body('table::key::partial_key')
+    ps = F.consts.get('table::key::PARTIAL_SIZE', {}).get('i')
+    if pkb and ps is not None:
+        starts = [st['r']['a'][0].get('i') for blk in pkb.blocks for st in blk['s'] if st['k'] == 'assign' and st['r']['k'] == 'agg' and str(st['r']['ak']).endswith('RangeFrom') and st['r']['a']]
+        ctx.ob(p + 'w2 partial-key-is-the-last-PARTIAL_SIZE-bytes', 'K8-const', pkb.path, 'partial_key(hash) is hash[32 - PARTIAL_SIZE ..]', starts == [32 - ps], 'starts %s PARTIAL_SIZE %s' % (starts, ps))
+
+
 def key_tail_check(ctx, p):
+    key_tail_whole(ctx, p)
     F = ctx.F
     b = ctx.body('table::ValueTable::for_parts')
     if not b:
